@@ -8,7 +8,7 @@ ASSUMPTIONS = [
     "the three configuration-error classes are run natively on real temporary files (finite, not a solver question)",
 ]
 STUBS = ["config open/json.load shim", "open_process recorder", "no-op task group", "send_initialize recorder", "asyncio shim for the runner's cleanup", "anyio.run = drive", "os.system no-op"]
-OUTSIDE = ["command strings longer than 2 characters, more than 2 args", "real process spawn", "timeouts other than the four listed shapes"]
+OUTSIDE = ["symbolic command strings longer than 2 characters, more than 2 symbolic args (longer / more: sizes from the source-constant cases, concrete content)", "real process spawn", "timeouts other than the four listed shapes"]
 
 
 def obligations(tier, ctx):
@@ -35,6 +35,14 @@ def obligations(tier, ctx):
     for which, nm in ((0, "loader"), (1, "cli"), (2, "runner")):
         obs.append(Ob(name=f"corpus_{nm}", params=[("c", "int"), ("a", "int"), ("e", "int")], pre=["0 <= c <= 5", "0 <= a <= 8", "0 <= e <= 4"],
                       call=f"H.corpus_entry({which}, c, a, e)", backend="P", timeout=300, family="command/argument corpus by symbolic index (Pydantic backend)"))
+    from symcheck import consts
+    nsz = len(consts.size_cases(70000, extra=(4096, 8192, 65536, 131072)))
+    nc = len(consts.size_cases(1100))
+    for form in range(6):
+        for which in ((0,) if form in (4, 5) else ((0, 2) if tier == "quick" else (0, 1, 2))):
+            for pat in ((5,) if (tier == "quick" or form not in (0, 3)) else (0, 4, 5)):
+                obs.append(Ob(name=f"big_f{form}_w{which}_p{pat}", params=[("k", "int")], pre=[f"0 <= k < {nsz if form in (0, 2, 3) else nc}"], call=f"H.big_entry({which}, k, {form}, {pat})",
+                              backend="P", timeout=900, family="size / count: argument, command or environment value of c-1, c, c+1 characters; c-1, c, c+1 arguments, variables or other servers"))
     return obs
 
 
